@@ -183,7 +183,7 @@ def execute_factory(cfg):
                     unknown = True
                 elif kind == "cluster":
                     valid = isinstance(op[1], str) and op[1] != ""
-                    exp = "ok" if valid else "either"
+                    exp = "ok" if (valid and frozen is False) else "either"    # (a frozen builder may refuse new scopes)
                     cm = b.Cluster(op[1])
                     cm.__enter__()
                     cms.append(cm); scopes.append(op[1])
@@ -191,7 +191,7 @@ def execute_factory(cfg):
                         unknown = True
                 elif kind == "index":
                     valid = isinstance(op[1], int) and op[1] >= 0
-                    exp = "ok" if valid else "either"
+                    exp = "ok" if (valid and frozen is False) else "either"
                     cm = b.Index(op[1])
                     cm.__enter__()
                     cms.append(cm); scopes.append(op[1])
